@@ -13,6 +13,10 @@ for h, sp in [('ext', 'ext extension'), ('dir', 'dir dirname directory'), ('fsiz
               ('mp3a', 'mp3_title title'), ('mp3b', 'mp3_album album'), ('mp3c', 'mp3_artist artist'), ('mp3d', 'mp3_genre genre'), ('mp3e', 'mp3_freq freq'),
               ('mp3f', 'mp3_bitrate bitrate'), ('sha', 'sha2_256 sha256'), ('sha2', 'sha2_512 sha512'), ('sha3', 'sha3_512 sha3'), ('case', 'name NAME Name nAmE'), ('case2', 'size SIZE Size')]:
     OBLIGATIONS.append(ob(f'C11.alias.field.{h}', FIELD + f'c11_field_{h}', f'Field::from_str maps the documented spellings ({sp}, plus upper/mixed case) to the same column', engine='K', units=['fieldclass']))
+for h, sp in [('lower', 'lower lowercase lcase'), ('upper', 'upper uppercase ucase'), ('length', 'length len'), ('substr', 'substring substr'), ('power', 'power pow'),
+              ('curdate', 'current_date cur_date curdate'), ('dow', 'dow dayofweek'), ('varpop', 'var_pop variance'), ('random', 'random rand'), ('fmttime', 'format_time pretty_time'),
+              ('caps', 'has_capability has_cap'), ('caps2', 'has_capabilities has_caps'), ('kana', 'contains_kana kana'), ('agg', 'count COUNT Count')]:
+    OBLIGATIONS.append(ob(f'C11.alias.function.{h}', 'function::verif_kani_names::c11_fn_' + h, f'Function::from_str maps the documented spellings ({sp}, plus upper / mixed case) to the same function', engine='K', units=['functionnames']))
 OBLIGATIONS.append(ob('C11.lexer.words', 'verif_frag::lexwords::c11_lexer_words', 'keyword table of Lexer::next_lexem (verbatim match block on a shim lexer): every documented operator word (eq ne eeq ene gt lt ge le gte lte regexp rx notrx like notlike between) lexes to an Operator token, every arithmetic word (plus minus mul div mod) to an ArithmeticOperator token, the clause keywords (from where or and order by desc limit into; not after WHERE) to their keyword tokens - in lower, UPPER and Capitalised spelling', units=['lexwords']))
 OBLIGATIONS.append(ob('C11.lexer.words.lw_ops_1', 'verif_frag::lexwords::lw_ops_1', 'part of C11.lexer.words: see harness/frag_lexwords.kani.rs lw_ops_1', units=['lexwords']))
 OBLIGATIONS.append(ob('C11.lexer.words.lw_ops_2', 'verif_frag::lexwords::lw_ops_2', 'part of C11.lexer.words: see harness/frag_lexwords.kani.rs lw_ops_2', units=['lexwords']))
@@ -22,7 +26,9 @@ OBLIGATIONS.append(ob('C11.lexer.words.lw_arith', 'verif_frag::lexwords::lw_arit
 OBLIGATIONS.append(ob('C11.lexer.words.lw_keywords', 'verif_frag::lexwords::lw_keywords', 'part of C11.lexer.words: see harness/frag_lexwords.kani.rs lw_keywords', units=['lexwords']))
 OBLIGATIONS.append(ob('C11.lexer.asc', 'verif_frag::lexwords::c11_lexer_asc', 'an explicit `asc` is skipped (the next token is returned) and an ordinary word stays a RawString with its original spelling', units=['lexwords']))
 OBLIGATIONS.append(ob('C11.between.case', BETW + 'c11_between_case', 'the BETWEEN guard of parse_cond accepts between / BETWEEN / Between and rejects other operator words', units=['cmp', 'between'], complete=False, bound='5 concrete spellings'))
-CANARIES = [dict(harness=OPS + 'canary_ops_must_fail', units=['operators']), dict(harness=FIELD + 'canary_field_must_fail', units=['fieldclass']), dict(harness='verif_frag::lexwords::canary_lexwords_must_fail', units=['lexwords'])]
+OBLIGATIONS.append(dict(id='C11.noparens', engine='V', verus_fn='Parser::parse_function', label='C11.noparens', complete=True, bound=None, units=[], harness='verus:Parser::parse_function', tier='quick',
+    desc='real parse_function, every token vector: for a function that takes no arguments, when the next token is not an opening bracket the call is returned and the cursor is left on that token (so `curdate` and `curdate()` parse the same)'))
+CANARIES = [dict(harness=OPS + 'canary_ops_must_fail', units=['operators']), dict(harness=FIELD + 'canary_field_must_fail', units=['fieldclass']), dict(harness='verif_frag::lexwords::canary_lexwords_must_fail', units=['lexwords']), dict(harness='function::verif_kani_names::canary_fnnames_must_fail', units=['functionnames'])]
 ASSUMPTIONS = ['the alias tables are finite: "complete" means every documented spelling, in lower and upper case, is enumerated']
-NOT_COVERED = ['whitespace-split invariance, bracket styles, optional tokens, function aliases (the real Lexer on the 3-word query `name from /x` does not finish in 300 s in CBMC: measured, removed)', 'root-option aliases: the real parse_root_options on one concrete word exhausts memory / 300 s in CBMC (measured) - only its panic freedom and termination are proved (Verus, under C10)']
+NOT_COVERED = ['whitespace-split invariance, bracket styles, optional tokens (the real Lexer on the 3-word query `name from /x` does not finish in 300 s in CBMC: measured, removed)', 'root-option aliases: the real parse_root_options on one concrete word exhausts memory / 300 s in CBMC (measured) - only its panic freedom and termination are proved (Verus, under C10)']
 HARNESS_TIMEOUT = 300
